@@ -65,3 +65,23 @@ Theorem c14_late_reply : forall lim d t c p,
   r_calls s' = r_calls s /\ forall c', rstep true lim d s' (LWake c') = None \/ c' <> c.
 Proof. exact late_reply_harmless. Qed.
 Print Assumptions c14_late_reply.
+
+(* The same property with reply channels as objects and Serve's two steps kept apart (it looks a
+   reply's channel up under the lock and sends after releasing it; Recycle.v).  As long as a
+   channel is never handed to a second call (the code as it is), however calls, replies, Serve's
+   sends, wake-ups and cancellations interleave, a call that returns a payload returns one that
+   Serve read under the call's own request id.  Handing a finished call's channel to the next
+   call breaks it, whether the channel is emptied first or not. *)
+From VP Require Import Recycle RecycleProofs.
+Theorem c14_own_reply_channels : forall evs s c p,
+  rcrun PNoRecycle rc0 evs = Some s -> aget c (rc_done s) = Some (RPayload p) -> In (c, p) (rc_read s).
+Proof. exact own_reply_channels. Qed.
+Print Assumptions c14_own_reply_channels.
+Theorem c14_channel_recycling_refuted :
+  let h1 := [VCall 1; VLookup 1 100; VSend; VCancel 1; VCall 2; VWake 2]%N in
+  (exists s, rcrun PRecycleAsIs rc0 h1 = Some s /\ aget 2%N (rc_done s) = Some (RPayload 100%N) /\ ~ In (2, 100)%N (rc_read s)) /\
+  rcrun PNoRecycle rc0 h1 = None /\
+  let h2 := [VCall 1; VLookup 1 100; VCancel 1; VCall 2; VSend; VWake 2]%N in
+  (exists s, rcrun PRecycleDrained rc0 h2 = Some s /\ aget 2%N (rc_done s) = Some (RPayload 100%N) /\ ~ In (2, 100)%N (rc_read s)) /\
+  rcrun PNoRecycle rc0 h2 = None.
+Proof. exact recycling_refuted. Qed.
